@@ -88,7 +88,7 @@ pub fn run(ctx: &mut Ctx) {
         if ctx.mine(item) {
             for cls in [&[Class::Digit][..], &[Class::Upper], &[Class::Lower, Class::Digit], &[Class::Upper, Class::Lower, Class::EdiPunct], &[Class::HighOther, Class::Digit]] {
                 let input = alternation(ctx, n, 1 + n % 3, cls);
-                eval(ctx, &EncCase { input, list: if n % 2 == 0 { "default".into() } else { "all".into() }, mask: 63, macros: false, fnc1: false, eci: None, order: 0 }, "length_sweep");
+                eval(ctx, &EncCase { input, list: if n % 2 == 0 { "default".into() } else { "all".into() }, mask: 63, macros: false, fnc1: false, eci: None, order: 0, prelude: 0, skipdef: false }, "length_sweep");
             }
         }
         item += 1;
@@ -101,24 +101,36 @@ pub fn run(ctx: &mut Ctx) {
                 if ctx.mine(item) {
                     let n = if ctx.is_thorough() { 1200 } else { 300 };
                     let input = alternation(ctx, n, period, &[core[a], core[b]]);
-                    eval(ctx, &EncCase { input: input.clone(), list: "default".into(), mask: 63, macros: false, fnc1: false, eci: None, order: 0 }, "alternation_pairs");
+                    eval(ctx, &EncCase { input: input.clone(), list: "default".into(), mask: 63, macros: false, fnc1: false, eci: None, order: 0, prelude: 0, skipdef: false }, "alternation_pairs");
                     let c3 = core[(a + b + period) % core.len()];
                     let input = alternation(ctx, n, period, &[core[a], core[b], c3]);
-                    eval(ctx, &EncCase { input, list: "all".into(), mask: 63, macros: false, fnc1: false, eci: None, order: 0 }, "alternation_triples");
+                    eval(ctx, &EncCase { input, list: "all".into(), mask: 63, macros: false, fnc1: false, eci: None, order: 0, prelude: 0, skipdef: false }, "alternation_triples");
                 }
                 item += 1;
             }
+        }
+    }
+    // tiny inputs (incl. the empty one) under every mode subset and a few lists
+    for mask in 0..=63u8 {
+        for n in 0..=4usize {
+            if ctx.mine(item) {
+                for list in ["default", "all", "Square10", "Square144"] {
+                    let input: Vec<u8> = b"A1a*".iter().copied().cycle().take(n).collect();
+                    eval(ctx, &EncCase { input, list: list.into(), mask, macros: false, fnc1: false, eci: None, order: 0, prelude: 0, skipdef: false }, "tiny_inputs_all_64_subsets");
+                }
+            }
+            item += 1;
         }
     }
     // all 63 mode subsets on a long adversarial input
     for mask in 1..=63u8 {
         if ctx.mine(item) {
             let input = alternation(ctx, 600, 2, &[Class::Upper, Class::Lower, Class::Digit, Class::EdiPunct]);
-            eval(ctx, &EncCase { input, list: "default".into(), mask, macros: false, fnc1: false, eci: None, order: 0 }, "all_63_subsets_long_input");
+            eval(ctx, &EncCase { input, list: "default".into(), mask, macros: false, fnc1: false, eci: None, order: 0, prelude: 0, skipdef: false }, "all_63_subsets_long_input");
         }
         item += 1;
     }
-    let n = ctx.budget(20_000, 2_000_000);
+    let n = ctx.budget(100_000, 3_000_000);
     for i in 0..n {
         let mut c = gen_case(&mut ctx.rng, 3116);
         if i % 4 == 0 {
